@@ -52,7 +52,7 @@ CODEC_TB = COMMON_TB + [
 PROPS["C01"] = {
     "features": None,
     "technique": "Lean 4 proof: refinement (C04) composed with reference-encoding theorem (C03), for all listings; differential round trips",
-    "level_text": "Machine-checked theorem `roundtrip`: for every header, every message of the public value model (all 22 kinds, mixed sets, collections of any depth with multi-valued members, repeated/empty groups, every name/value within the 16-bit wire length), every iteration order of every attribute map and every payload, the model parser applied to the model encoder's bytes followed by the payload returns exactly (header, groups, payload); plus `singleton_set`. No size or depth bound; proved by structural induction over the value type and the loop's fuel. Tie to the code: on every run seeded random messages are built with fresh randomly keyed hash maps, encoded and parsed by the real code, and both the bytes and the parse result are diffed against the model; the round-trip oracle runs on the real code.",
+    "level_text": "Machine-checked theorem `roundtrip`: for every header, every message of the public value model (all 22 kinds, mixed sets, collections of any depth with multi-valued members, repeated/empty groups, every name/value within the 16-bit wire length), every iteration order of every attribute map and every payload, the model parser applied to the model encoder's bytes followed by the payload returns exactly (header, groups, payload); `roundtrip_any` (the same for *every* list of groups, up to `opFirst`: the first operation group moved to the front, an empty one supplied when there is none – `opFirst_only_reorders`, `opFirst_without_operation_group`, `opFirst_id_of_wf`); plus `singleton_set`. No size or depth bound; proved by structural induction over the value type and the loop's fuel. Tie to the code: on every run seeded random messages are built with fresh randomly keyed hash maps, encoded and parsed by the real code, and both the bytes and the parse result are diffed against the model; the round-trip oracle runs on the real code.",
     "level_note": "Trusts the Lean kernel, the translator, the correspondence check, and the modelled-library assumptions listed in the evidence (HashMap/BTreeMap/bytes/from_utf8_lossy). The theorem is about the model; the model is validated on the explored messages.",
     "design_ref": "DESIGN.md section 9, C01",
     "trusted_base": CODEC_TB,
@@ -62,7 +62,7 @@ PROPS["C01"] = {
 PROPS["C03"] = {
     "features": None,
     "technique": "Lean 4 proof: encoder = Spec.ser of the reference wire tree for all listings; independent RFC 8010 reader (Spec.unser) run on the real bytes",
-    "level_text": "Machine-checked theorems: for every message of the domain of C01 and every listing (iteration order) `encodeMsg h L = ser (toWireMsg h L)` (bytes identical to the reference encoding written from RFC 8010), `wfWire (toWireMsg h L)` (registered tags, lengths, empty names on additional values, bracketed collections, member names before their values, one end tag), `interp (toWireMsg h L) = (h, gs)` (the RFC reading of the bytes is the message), `tagOf v = registryTag v`. Tie to the code: the real encoder's bytes for seeded random messages built on fresh hash maps are compared with the model encoder's, and are read by an independent grammar-directed decoder (Spec.unser: no state machine, no stack) whose result must be well-formed, re-serialise to the same bytes, have unique names and interpret to the message.",
+    "level_text": "Machine-checked theorems: for every message of the domain of C01 and every listing (iteration order) `encodeMsg h L = ser (toWireMsg h L)` (bytes identical to the reference encoding written from RFC 8010), `wfWire (toWireMsg h L)` (registered tags, lengths, empty names on additional values, bracketed collections, member names before their values, one end tag), `interp (toWireMsg h L) = (h, gs)` (the RFC reading of the bytes is the message), `tagOf v = registryTag v`; `any_message` (all three for every list of groups, with `opFirst`). Tie to the code: the real encoder's bytes for seeded random messages built on fresh hash maps are compared with the model encoder's, and are read by an independent grammar-directed decoder (Spec.unser: no state machine, no stack) whose result must be well-formed, re-serialise to the same bytes, have unique names and interpret to the message.",
     "level_note": "Trusts the Lean kernel, the translator, the correspondence check, Spec/Wire.lean as the transcription of RFC 8010 section 3, and the modelled-library assumptions (HashMap iteration = arbitrary listing).",
     "design_ref": "DESIGN.md section 9, C03",
     "trusted_base": CODEC_TB + ["Spec/Wire.lean, Spec/ToWire.lean, Spec/Unser.lean: the RFC 8010 grammar, reference encoding and independent reader, written from the RFC"],
@@ -92,7 +92,7 @@ PROPS["C09"] = {
 PROPS["C10"] = {
     "features": None,
     "technique": "Lean 4 proof: builder call sequences fold to a summary; buildOp = declarative Spec.request for all 10 operations; differential runs of the real builders",
-    "level_text": "Machine-checked theorems: `build_eq_spec` (for each of the 10 operations, every target, job id, payload and every sequence of builder calls, the built request equals the declaratively specified one: version 1.1, the registry's operation code, request-id 1, an operation group holding exactly charset, language, canonical printer-uri and the attributes the arguments imply, a job group with the extra job attributes last-wins, the payload unmodified, nothing else), `calls_fold_to_summary` (single-valued setters replace, accumulating setters keep everything in order), `new_request_spec`, `new_response_spec`, `op_codes_pin`, `names_pin`. Induction over call lists; no bound on their length. Tie to the code: the real builders and constructors are driven with seeded random call sequences, URIs, job ids and payloads and their requests (canonicalised) and payload bytes are diffed against the model.",
+    "level_text": "Machine-checked theorems: `build_eq_spec` (for each of the 10 operations, every target, job id, payload and every sequence of builder calls, the built request equals the declaratively specified one: version 1.1, the registry's operation code, request-id 1 (the correspondence accepts any positive request-id, as the property does), an operation group holding exactly charset, language, canonical printer-uri and the attributes the arguments imply, a job group with the extra job attributes last-wins, the payload unmodified, nothing else), `calls_fold_to_summary` (single-valued setters replace, accumulating setters keep everything in order), `new_request_spec`, `new_response_spec`, `op_codes_pin`, `names_pin`. Induction over call lists; no bound on their length. Tie to the code: the real builders and constructors are driven with seeded random call sequences, URIs, job ids and payloads and their requests (canonicalised) and payload bytes are diffed against the model.",
     "level_note": "Trusts the Lean kernel, the translator (operation codes, attribute names), the correspondence check, Spec/Requests.lean as the reading of RFC 8011 and of the property; the payload is modelled as an opaque byte string carried through; `http::Uri` splitting is a modelled library (see C13).",
     "design_ref": "DESIGN.md section 9, C10",
     "trusted_base": CODEC_TB + ["Spec/Requests.lean: declarative request descriptions", "http::Uri accessors (scheme, authority, path, query) as reported by the crate"],
@@ -202,7 +202,7 @@ PROPS["C20"] = {
 PROPS["C15"] = {
     "features": None,
     "technique": "Lean 4 proof: potential-function argument on a cost-annotated run of the same drive loop (cost <= 8*consumed+8), erasure lemma (cost parser = parser); real allocations measured by a counting allocator on size-parameterised families",
-    "level_text": "Machine-checked theorems: `cost_model_is_the_parser` (the cost-annotated machine projects onto the parser: same results, rests and errors on every input) and `linear` (for every input – any nesting depth, set width, number of attributes, members or groups, well-formed or malformed – the modelled work (bytes allocated per token, pushes, items moved when a collection closes, name hashing/copying on insert) is at most 8 per byte consumed plus 8; amortised by a potential function over the collection stack). Tie to the code: ten input families with n doubling to 256 KiB (1 MiB thorough) are parsed by the real code under a counting global allocator: allocated bytes and allocator calls per input byte against absolute ceilings (400 B, 2.5 calls), growth factor <= 2.5 on doubling, wall-clock backstop; consumed bytes diffed against the model (up to 4096 elements).",
+    "level_text": "Machine-checked theorems: `cost_model_is_the_parser` (the cost-annotated machine projects onto the parser: same results, rests and errors on every input) and `linear` (for every input – any nesting depth, set width, number of attributes, members or groups, well-formed or malformed – the modelled work (bytes allocated per token, pushes, items moved when a collection closes, name hashing/copying on insert) is at most 8 per byte consumed plus 8; amortised by a potential function over the collection stack). Tie to the code: sixteen input families with n doubling to 1 MiB (2 MiB thorough) are parsed by the real blocking parser, by the async parser, and by the async parser fed 64- and 536-octet pieces, under a counting global allocator: allocated bytes and allocator calls per input byte against absolute ceilings (400 B, 2.5 calls), growth factor <= 2.5 on doubling, wall-clock backstop; consumed bytes diffed against the model (up to 4096 elements).",
     "level_note": "Partial: the cost semantics of Vec / HashMap / BTreeMap / the allocator are constants of the model; comparisons inside BTreeMap::insert (n log n) are outside it. The real allocator is observed, not proved.",
     "design_ref": "DESIGN.md section 9, C15",
     "trusted_base": CODEC_TB + ["Model/Cost.lean: per-token work of the implementation as counted by hand from parser.rs/reader.rs", "counting GlobalAlloc wrapper in the harness (harness/src/alloc.rs)"],
@@ -233,8 +233,8 @@ PROPS["C18"] = {
 PROPS["C12"] = {
     "features": None,
     "multi_features": ["native-tls", "rustls"],
-    "technique": "Lean 4 proof: accept/reject of the modelled flag-and-root plumbing = the property's rule over the whole finite matrix (case analysis); the complete 240-cell matrix run with real handshakes on both backends",
-    "level_text": "Machine-checked theorems on Model/Tls.lean (what each of the four backend blocks hands to its TLS library, incl. how each library's PEM/DER decoders treat the supplied root): `matrix` (for every client, backend, ignore setting, extra root and server certificate the exchange is accepted exactly when the caller opted out or the certificate is valid and chains to the supplied root in either encoding), `plumbing` (without opt-out no verification is relaxed, no accept-all verifier is installed and every supplied root reaches the trust store), `default_verifies`, `bad_certificates_rejected`, `valid_with_root_accepted`, `old_async_rustls_lost_der_root` (the defect repaired by the DER fix). Tie to the code: the complete matrix {blocking, async} x {native-tls, rustls} x {unset, false, true} x {none, PEM, DER, unrelated} x {valid, wrong name, expired, self-signed, unknown CA} = 240 cells is executed on every check with real handshakes against an in-process rustls server using certificates generated at run time by the openssl CLI (two harness builds, one per backend); outcome compared with the model and the property; a rejected cell must leave zero application bytes at the server.",
+    "technique": "Lean 4 proof: accept/reject of the modelled flag-and-root plumbing = the property's rule over the whole finite matrix (case analysis); the matrix (1440 cells quick, 3840 thorough: setter-call sequences, one or two ca_cert calls, host as name or IP literal, ipps or https) run with real handshakes on both backends",
+    "level_text": "Machine-checked theorems on Model/Tls.lean (what each of the four backend blocks hands to its TLS library, incl. how each library's PEM/DER decoders treat the supplied root): `matrix` (for every client, backend, every *sequence* of ignore_tls_errors calls, every list of ca_cert calls of the model, host kind and server certificate the exchange is accepted exactly when the most recent setter call opted out or the certificate is valid and chains to a supplied root in either encoding), `flag_is_last_call`, `opt_out_can_be_revoked`, `plumbing` (without opt-out no verification is relaxed, no accept-all verifier is installed and every supplied root reaches the trust store), `default_verifies`, `bad_certificates_rejected`, `valid_with_root_accepted`, `old_async_rustls_lost_der_root` (the defect repaired by the DER fix). Tie to the code: the matrix {blocking, async} x {native-tls, rustls} x {eight sequences of ignore_tls_errors calls} x {none, PEM, DER (ending in a white-space octet), unrelated, same-named decoy before / after the correct root} x {valid, wrong name, expired, self-signed, unknown CA} x {host as DNS name, as IP literal} x {ipps, https} (720 cells per backend in the quick tier, 1920 thorough) is executed on every check with real handshakes against an in-process rustls server using certificates generated at run time by the openssl CLI (two harness builds, one per backend); outcome compared with the model and the property; a rejected cell must leave zero application bytes at the server.",
     "level_note": "Partial: the TLS libraries' verification is a parameter (`verify`) with stated behaviour; almost all assurance is the exhaustive real run, the theorem covers the plumbing.",
     "design_ref": "DESIGN.md section 9, C12",
     "trusted_base": COMMON_TB + ["native-tls/OpenSSL, rustls + webpki, reqwest, ureq (parameters)", "openssl CLI for test certificates", "harness/src/tls.rs: rustls test server counting application bytes after the handshake"],
